@@ -605,8 +605,24 @@ def run_many(cases, workers):
         gc.unfreeze()
 
 
-def shrink_hist(hist, still, budget=150):
-    """one-event-at-a-time shrinking; removing the k-th Issue renumbers the later Cancel ids"""
+def remove_events(hist, idxs):
+    """history without the events at idxs; removing the k-th Issue drops Cancel k and renumbers later ids"""
+    gone = sorted(sum(1 for e in hist[:i] if e[0] == "I") for i in idxs if hist[i][0] == "I")
+    out = []
+    for j, e in enumerate(hist):
+        if j in idxs:
+            continue
+        if e[0] == "C":
+            if e[1] in gone:
+                continue
+            out.append(["C", e[1] - sum(1 for g in gone if g < e[1])])
+        else:
+            out.append(list(e))
+    return out
+
+
+def shrink_hist(hist, still, budget=200):
+    """remove single events, then pairs of events, while the failure persists"""
     hist = [list(e) for e in hist]
     n = 0
     progress = True
@@ -614,20 +630,21 @@ def shrink_hist(hist, still, budget=150):
         progress = False
         i = 0
         while i < len(hist) and n < budget:
-            cand = hist[:i] + hist[i + 1:]
-            if hist[i][0] == "I":
-                k = sum(1 for e in hist[:i] if e[0] == "I")
-                cand = []
-                for j, e in enumerate(hist):
-                    if j == i or (e[0] == "C" and e[1] == k):
-                        continue
-                    cand.append(["C", e[1] - 1] if e[0] == "C" and e[1] > k else e)
+            cand = remove_events(hist, {i})
             n += 1
             if still(cand):
-                hist = cand
-                progress = True
+                hist, progress = cand, True
             else:
                 i += 1
+        if not progress and len(hist) <= 12:
+            for a in range(len(hist)):
+                for b in range(a + 1, len(hist)):
+                    if n >= budget or progress:
+                        break
+                    cand = remove_events(hist, {a, b})
+                    n += 1
+                    if still(cand):
+                        hist, progress = cand, True
     return hist
 
 
@@ -722,7 +739,7 @@ def run(ctx):
                         return any(k == key for k, _ in oracle(h2, run_impl(h2, cap)))
                     except Exception:  # noqa
                         return False
-                small = shrink_hist(hist, still, budget=150)
+                small = shrink_hist(hist, still)
                 res2 = run_impl(small, cap)
                 for k, w in oracle(small, res2) or orc:
                     viols.append(violation(k, f"{w}  [cap={cap} history={json.dumps(small)}]", True, cap=cap, history=small,
@@ -740,7 +757,7 @@ def run(ctx):
                             return compare(h2, r2, m2) is not None
                         except Exception:  # noqa
                             return False
-                    small = shrink_hist(hist, differs, budget=150)
+                    small = shrink_hist(hist, differs)
                     r2 = run_impl(small, cap)
                     o2 = oracle(small, r2)
                     m2 = parse_model(drv.batch([model_line(cap, small + [["A", TAIL]])])[0], len(small) + 1)[0]
